@@ -414,6 +414,25 @@ impl<K: Hash + Eq, KH: KeyHasher<K>> TinyLFU<K, KH> {
 // Verification hooks (cargo feature `verif-hooks`, off by default).
 // ---------------------------------------------------------------------------
 #[cfg(feature = "verif-hooks")]
+impl<K: Hash + Eq, KH: KeyHasher<K>> TinyLFU<K, KH> {
+    /// Builds a TinyLFU with a caller-supplied key hasher through the (crate-private) builder,
+    /// so that a simulator owns the key digests. Same code path as `TinyLFU::new`.
+    #[doc(hidden)]
+    pub fn verif_with_key_hasher(
+        size: usize,
+        samples: usize,
+        false_positive_ratio: f64,
+        kh: KH,
+    ) -> Result<Self, TinyLFUError> {
+        TinyLFUBuilder::with_hasher(kh)
+            .set_size(size)
+            .set_samples(samples)
+            .set_false_positive_ratio(false_positive_ratio)
+            .finalize()
+    }
+}
+
+#[cfg(feature = "verif-hooks")]
 impl<K, KH> TinyLFU<K, KH> {
     /// Snapshot of the private estimator state.
     #[doc(hidden)]
